@@ -152,7 +152,8 @@ C17Checks(e) ==
                 P == x.pred
                 ming == x.dgz[1] = 4
                 an == x.dgz[2] = AnWuBranch[AbsM(lm)]
-            IN Chk("C17.tao.year-month-day", << k, x.l, x.t >>, x.t = << TaoYear(ly), lm, ld >>)
+            IN IF ~(AbsM(lm) \in 1..12 /\ ld \in 1..30) THEN Chk("C17.lunar.fields-out-of-range", << k, x.l >>, FALSE) ELSE
+               Chk("C17.tao.year-month-day", << k, x.l, x.t >>, x.t = << TaoYear(ly), lm, ld >>)
                + Chk("C17.foto.year-month-day", << k, x.l, x.f >>, x.f = << FotoYear(ly), lm, ld >>)
                + Chk("C17.tao.roundtrip", << k, x.t >>, x.pr = 0 /\ x.tr = x.t \o x.c)
                + Chk("C17.foto.roundtrip", << k, x.f >>, x.pr = 0 /\ x.fr = x.f \o x.c)
